@@ -138,6 +138,59 @@ static double max_abs(const Vector<double>& v) { double m = 0; for (int i = 0; i
 static void fill_garbage(Rng& rng, Vector<double>& v) { for (int i = 0; i < v.size(); i++) v[i] = rng.uniform(-1e3, 1e3); }
 
 // ---------------------------------------------------------------------------------------------- cycle
+// Textbook correction scheme composed from the PUBLIC operators with fresh local vectors (no buffer rotation, no shared scratch):
+// the implementation oracle for every private cycle — whatever the cycles do with the four work vectors per level, the new iterate
+// must be this one.  `plain` : u <- S^nu2 ( u' ),  u' = S^nu1(u) + P e,  e = coarse(R (f - A S^nu1 u)),  coarse = direct solve on the
+// last level, else one (V), two (W) or F-then-V (F) recursive cycles started from zero.
+static void ref_plain(GMGPolarVerif& v, int L, int kind, int nu1, int nu2, int d, Vector<double>& x, const Vector<double>& rhs)
+{
+    Level& lv = v.level(d);
+    int n = lv.grid().numberOfNodes();
+    Vector<double> tmp(n), r(n);
+    for (int i = 0; i < n; i++) tmp[i] = 0.0;
+    for (int s = 0; s < nu1; s++) lv.smoothing(x, rhs, tmp);
+    lv.computeResidual(r, rhs, x);
+    Level& nx = v.level(d + 1);
+    int nc = nx.grid().numberOfNodes();
+    Vector<double> rc(nc), e(nc), pe(n);
+    v.interp().applyRestriction(lv, nx, rc, r);
+    if (d + 1 == L - 1) { e = rc; nx.directSolveInPlace(e); }
+    else {
+        for (int i = 0; i < nc; i++) e[i] = 0.0;
+        if (kind == 0) ref_plain(v, L, 0, nu1, nu2, d + 1, e, rc);
+        else if (kind == 1) { ref_plain(v, L, 1, nu1, nu2, d + 1, e, rc); ref_plain(v, L, 1, nu1, nu2, d + 1, e, rc); }
+        else { ref_plain(v, L, 2, nu1, nu2, d + 1, e, rc); ref_plain(v, L, 0, nu1, nu2, d + 1, e, rc); }
+    }
+    v.interp().applyProlongation(nx, lv, pe, e);
+    for (int i = 0; i < n; i++) x[i] += pe[i];
+    for (int s = 0; s < nu2; s++) lv.smoothing(x, rhs, tmp);
+}
+// extrapolated cycle on level 0: coarse right-hand side 4/3 R_ex (f - A u) - 1/3 (f_1 - A_1 inj u), extrapolated prolongation
+static void ref_extrap(GMGPolarVerif& v, int L, int kind, int nu1, int nu2, bool fgs, Vector<double>& x, const Vector<double>& rhs)
+{
+    Level& lv = v.level(0);
+    Level& nx = v.level(1);
+    int n = lv.grid().numberOfNodes(), nc = nx.grid().numberOfNodes();
+    Vector<double> tmp(n), r(n), rc(nc), xc(nc), r1(nc), e(nc), pe(n);
+    for (int i = 0; i < n; i++) tmp[i] = 0.0;
+    auto sm = [&]() { if (fgs) lv.smoothing(x, rhs, tmp); else lv.extrapolatedSmoothing(x, rhs, tmp); };
+    for (int s = 0; s < nu1; s++) sm();
+    lv.computeResidual(r, rhs, x);
+    v.interp().applyExtrapolatedRestriction(lv, nx, rc, r);
+    v.interp().applyInjection(lv, nx, xc, x);
+    nx.computeResidual(r1, nx.rhs(), xc);
+    for (int i = 0; i < nc; i++) rc[i] = 4.0 / 3.0 * rc[i] + -1.0 / 3.0 * r1[i];
+    if (1 == L - 1) { e = rc; nx.directSolveInPlace(e); }
+    else {
+        for (int i = 0; i < nc; i++) e[i] = 0.0;
+        if (kind == 0) ref_plain(v, L, 0, nu1, nu2, 1, e, rc);
+        else if (kind == 1) { ref_plain(v, L, 1, nu1, nu2, 1, e, rc); ref_plain(v, L, 1, nu1, nu2, 1, e, rc); }
+        else { ref_plain(v, L, 2, nu1, nu2, 1, e, rc); ref_plain(v, L, 0, nu1, nu2, 1, e, rc); }
+    }
+    v.interp().applyExtrapolatedProlongation(nx, lv, pe, e);
+    for (int i = 0; i < n; i++) x[i] += pe[i];
+    for (int s = 0; s < nu2; s++) sm();
+}
 static int mode_cycle(int reps)
 {
     Rng rng(seed_from_env());
@@ -173,6 +226,20 @@ static int mode_cycle(int reps)
                     bool rhs_same = true;
                     for (int i = 0; i < rhs0.size(); i++) if (rhs0[i] != l0.rhs()[i]) rhs_same = false;
                     printf("ORC case=%d rhs_untouched=%d\n", case_no - 1, (int)rhs_same);
+                    {
+                        // oracle 0: the cycle (scratch vectors full of garbage) against the textbook recursion on the same start iterate
+                        Vector<double> u0(l0.grid().numberOfNodes());
+                        fill_garbage(rng, u0);
+                        Vector<double> uref = u0;
+                        if (extrap) ref_extrap(v, L, kind, nu1, nu2, v.fgs(), uref, l0.rhs());
+                        else ref_plain(v, L, kind, nu1, nu2, 0, uref, l0.rhs());
+                        for (int l = 0; l < L; l++) { fill_garbage(rng, v.level(l).residual()); if (l > 0) { fill_garbage(rng, v.level(l).error_correction()); fill_garbage(rng, v.level(l).solution()); } }
+                        l0.solution() = u0;
+                        v.cycle(kind, extrap, 0, l0.solution(), l0.rhs(), l0.residual());
+                        double dd = 0;
+                        for (int i = 0; i < uref.size(); i++) dd = std::max(dd, std::abs(uref[i] - l0.solution()[i]));
+                        printf("ORC case=%d textbook_cycle_diff=%s scale=%s kind=%d extrap=%d L=%d nu1=%d nu2=%d fgs=%d\n", case_no - 1, hex(dd).c_str(), hex(max_abs(uref)).c_str(), kind, extrap, L, nu1, nu2, (int)v.fgs());
+                    }
                     if (!extrap) {
                         // oracle 1: started from the exact discrete solution the cycle returns it (scratch = garbage)
                         l0.initializeDirectSolver(v.geo(), v.coef(), g.DirBC_Interior(), 1, g.stencilDistributionMethod());
